@@ -101,6 +101,10 @@ def call(
         if out.isconstant():
             out = out.tonumpy()
         else:
+            # numeric coefficients and arguments enter the arithmetic as
+            # constants over the default indeterminant; that name must not stay
+            # behind unused, or later positional arguments bind to it.
+            out = numpoly.clean_attributes(out, retain_names=False)
             out, _ = numpoly.align_indeterminants(out, poly.indeterminants)
 
     return out
